@@ -9,6 +9,7 @@ import (
 	"context"
 	"fmt"
 	"net"
+	"sort"
 	"strings"
 	"testing"
 	"time"
@@ -411,6 +412,102 @@ func TestVerifC04History(t *testing.T) {
 
 		if st.WantSample() && len(hist) > 4 {
 			st.Sample(hist)
+		}
+	})
+}
+
+// ---------------------------------------------------------------------------
+// (c) real LRU, real time: the harness-clocked histories assume that rewinding
+// stored timestamps equals the passage of time; this part samples the same
+// clauses with real sleeps and the real gcache expiry.
+
+func TestVerifC04RealTime(t *testing.T) {
+	st := vstat.New("C04", "cache.realtime",
+		"rapid: K probes (kind A/NXDOMAIN/SERVFAIL, ttl 1-3 s, delay drawn around half-life, expiry and beyond) stored at once in the real LRU, each re-asked after its real delay; oracle is one-sided on measured ages: served TTL <= bound(ttl, measured minimum age), and an answer whose measured minimum age exceeds its life must come from upstream; non-trivial = probe re-asked at age >= 0.4 s; distinct by (kind, ttl, delay/100ms)",
+		"rt-hit", "rt-miss-after-expiry", "rt-late-hit")
+	st.Finish(t)
+
+	rapid.Check(t, func(t *rapid.T) {
+		up := &vc04Upstream{calls: map[string]int{}}
+		m := NewMiddleware(&MiddlewareConfig{Count: 1000})
+		h := m.Wrap(up)
+
+		type probe struct {
+			req    *dns.Msg
+			life   time.Duration
+			delay  time.Duration
+			stored time.Time
+			kind   vdns.Kind
+		}
+
+		n := rapid.IntRange(4, 16).Draw(t, "probes")
+		probes := make([]*probe, 0, n)
+		for i := 0; i < n; i++ {
+			kind := rapid.SampledFrom([]vdns.Kind{vdns.KA, vdns.KA, vdns.KAMixed, vdns.KNX, vdns.KNodataSOA}).Draw(t, "kind")
+			ti := rapid.IntRange(0, 2).Draw(t, "ttlIdx") // 1, 2, 3 s
+			life := time.Duration(vdns.TTLs[ti]) * time.Second
+			delay := rapid.SampledFrom([]time.Duration{400 * time.Millisecond, 600 * time.Millisecond, life - 550*time.Millisecond,
+				life - 450*time.Millisecond, life + 150*time.Millisecond, life + 600*time.Millisecond}).Draw(t, "delay")
+			if delay < 0 {
+				delay = 100 * time.Millisecond
+			}
+
+			req := (&dns.Msg{}).SetQuestion(vdns.Name(kind, ti, fmt.Sprintf("p%d.rt.test.", i)), dns.TypeA)
+			probes = append(probes, &probe{req: req, life: life, delay: delay, kind: kind})
+		}
+
+		// Three fixed probes make the interesting classes certain in every case:
+		// an early hit, a late hit and a re-ask after expiry.
+		for i, f := range []struct {
+			ti    int
+			delay time.Duration
+		}{{0, 400 * time.Millisecond}, {1, 1500 * time.Millisecond}, {0, 1150 * time.Millisecond}} {
+			req := (&dns.Msg{}).SetQuestion(vdns.Name(vdns.KA, f.ti, fmt.Sprintf("f%d.rt.test.", i)), dns.TypeA)
+			probes = append(probes, &probe{req: req, life: time.Duration(vdns.TTLs[f.ti]) * time.Second, delay: f.delay, kind: vdns.KA})
+		}
+
+		for _, p := range probes {
+			vc04Exchange(t, h, p.req.Copy())
+			p.stored = time.Now() // after the store: the real age is at least time.Since(stored)
+		}
+
+		sort.Slice(probes, func(i, j int) bool { return probes[i].delay < probes[j].delay })
+		for _, p := range probes {
+			if d := time.Until(p.stored.Add(p.delay)); d > 0 {
+				time.Sleep(d)
+			}
+
+			minAge := time.Since(p.stored)
+			before := up.total
+			resp := vc04Exchange(t, h, p.req.Copy())
+			hit := up.total == before
+			served, _ := vdns.MaxTTL(resp)
+			cls := "rt-miss"
+			switch {
+			case hit && minAge*2 >= p.life:
+				cls = "rt-late-hit"
+			case hit:
+				cls = "rt-hit"
+			case minAge > p.life:
+				cls = "rt-miss-after-expiry"
+			}
+
+			st.Case(fmt.Sprintf("%d/%s/%d", p.kind, p.life, p.delay/(100*time.Millisecond)), cls)
+			if st.WantSample() && hit {
+				st.Sample(map[string]any{"kind": vdns.KindNames[p.kind], "life_s": p.life.Seconds(), "min_age_ms": minAge.Milliseconds(), "served_ttl": served})
+			}
+
+			if !hit {
+				continue
+			}
+
+			if minAge > p.life {
+				t.Fatalf("real time: %s (life %s) served from cache at a measured age of at least %s", p.req.Question[0].Name, p.life, minAge)
+			}
+
+			if bound := vdns.Bound(uint32(p.life/time.Second), minAge); served > bound {
+				t.Fatalf("real time: %s (life %s) served TTL %d at a measured age of at least %s; bound %d", p.req.Question[0].Name, p.life, served, minAge, bound)
+			}
 		}
 	})
 }
